@@ -19,6 +19,7 @@ def run(prog, chk):
     split_table(prog, chk)
     url_parser_table(prog, chk)
     string_param_table(prog, chk)
+    endpoint_string_writers(prog, chk)
     _run(prog, chk)
 
 
@@ -561,3 +562,46 @@ def string_param_table(prog, chk):
         ok = q.ret == 0 and gots == want and not (cur == Ptr("OLD") and Ptr("OLD") in freed)
         chk.ob("C20.setparam", inst, ok, "expected KSI_OK and the parameter holding %r; source: status %s, parameter holds %r" % (want, q.ret, gots), loc=fn.loc(), fn=fn,
                nontrivial=old is not None and old != want)
+
+
+def endpoint_string_writers(prog, chk):
+    """The strings of a service endpoint (url, host, path, login id, key) are replaced as whole, freshly allocated strings
+    (setStringParam / KSI_strdup, judged by C20.setparam): nothing writes octets INTO the stored string, where a shorter value would
+    keep the old one's tail and a longer one would overflow it.  Who-may-write rule over the transport units."""
+    import re
+    chk.rule("C20.epwrite", "endpoint strings are replaced by freshly allocated copies, never written into in place (who-may-write)", floor=8)
+    FIELDS = {"url", "host", "path", "ksi_user", "ksi_pass"}
+    BYTEWRITERS = re.compile(r"^(strcpy|strncpy|memcpy|memmove|memset|sprintf|snprintf|vsnprintf|KSI_snprintf|KSI_strncpy|strcat|strncat|stpcpy)$")
+    SETTERS = {"setStringParam", "newStringFromExisting", "KSI_strdup"}
+    n = 0
+    for fn in sorted(prog.all_functions(), key=lambda f: (f.unit, f.line)):
+        if not fn.unit.startswith("net"):
+            continue
+        good, bad = 0, []
+        for b, i, c in fn.calls():
+            nm = c.get("fn") or ""
+            if not c["a"]:
+                continue
+            a0 = strip(c["a"][0])
+            while isinstance(a0, dict) and a0.get("k") == "cast":
+                a0 = strip(a0["e"])
+            if BYTEWRITERS.match(nm) and isinstance(a0, dict) and a0.get("k") == "mem" and a0["f"] in FIELDS:
+                bad.append("%s(%s, ...) at line %s" % (nm, show(a0, fn), fn.elem_line(b, i)))
+            if nm in SETTERS:
+                for a in c["a"]:
+                    x = strip(a)
+                    if isinstance(x, dict) and x.get("k") == "un" and x.get("op") == "&" and isinstance(strip(x["e"]), dict) and strip(x["e"]).get("k") == "mem" and strip(x["e"])["f"] in FIELDS:
+                        good += 1
+        for b, i, m in fn.nodes():
+            if m.get("k") == "asg" and strip(m["l"]).get("k") in ("idx", "un"):
+                base = strip(m["l"])
+                inner = strip(base.get("b") if base.get("k") == "idx" else base.get("e"))
+                while isinstance(inner, dict) and inner.get("k") in ("bin", "cast"):
+                    inner = strip(inner.get("l") if inner.get("k") == "bin" else inner.get("e"))
+                if isinstance(inner, dict) and inner.get("k") == "mem" and inner["f"] in FIELDS:
+                    bad.append("store into %s at line %s" % (show(base, fn), fn.elem_line(b, i)))
+        if good or bad:
+            n += 1
+            chk.ob("C20.epwrite", fn.name, not bad, "%d endpoint string(s) set through an allocating setter%s" % (good, "; written in place: %s" % bad if bad else ""), loc=fn.loc(), fn=fn)
+    if n < 8:
+        raise AnalysisBroken("C20.epwrite: only %d functions that set endpoint strings recognised" % n)
